@@ -27,7 +27,8 @@ def h_results(runners=2, appends=2, rounds=2, same_batch=True, file_ops=True, ma
         os.makedirs(os.path.join(out, "results"))
         ResultsAggregator.create(out)
         nr = 1 + ex.choice("runners", runners)
-        batch_of = [1] + [(1 if same_batch and ex.flag("same_batch%d" % k) else k + 1) for k in range(1, nr)]
+        first = [1, 12][ex.choice("first_batch_id", 2)]  # one- and two-digit batch ids
+        batch_of = [first] + [(first if same_batch and ex.flag("same_batch%d" % k) else first + 8 * k) for k in range(1, nr)]
         napp = [1 + ex.choice("appends%d" % k, appends) for k in range(nr)]
         nrounds = 1 + ex.choice("rounds", rounds)
         appended, collected, errors = [], [], []
